@@ -1,9 +1,12 @@
 /-
   Protocol ops of one area (see /verif/FRAMEWORK.md).  Not part of any theorem.  Core Lean only.
   Region area (C09): the stages of `Minimize` one by one, `invertSegments` on a raw segment list,
-  and the spec-side cover.
+  and the spec-side cover.  C05: `reg.locate <region> x<bytes>` = `Region.Locate` (`Reg.locate`, Model/Cli.lean)
+  on the feature-less record `gts.New(nil, nil, bytes)`, answered in the sequence encoding.  The model's
+  `Seq.slice` is total where the real `Slice` panics, so the harness sends regions inside the sequence only.
 -/
 import Gts.Model.Sexp
+import Gts.Model.Cli
 import Gts.Spec.Cover
 namespace Gts
 
@@ -15,6 +18,8 @@ def evalReg (op : String) (args : List Sexp) : Option String :=
   | "reg.sort", [r] => do pure (encSegs (Reg.sortSegs (← decReg? r).flatten))
   | "reg.invsegs", [r, n] => do
       pure (encSegs (Reg.invertSegments (← decReg? r).leaves (← decInt? n)))
+  | "reg.locate", [r, b] => do
+      pure (encSeq (Reg.locate (← decReg? r) ⟨[], ← decBytes? b⟩))
   | "spec.cover", [r, lo, k] => do
       pure (encInts (coverList (← decReg? r) (← decInt? lo) (← decInt? k).toNat))
   | _, _ => none
